@@ -18,7 +18,15 @@ pub fn install_hook() {
   std::panic::set_hook(Box::new(|info| {
     let loc = info
       .location()
-      .map(|l| format!("{}:{}", l.file().trim_start_matches("/repo/"), l.line()))
+      .map(|l| {
+        // path relative to the crate root wherever the crate lives (/repo, or a scratch copy): cut at the last "src/"
+        let f = l.file();
+        let rel = match f.rfind("/src/") {
+          Some(i) if !f.contains("/.cargo/") && !f.contains("/rustc/") => &f[i + 1..],
+          _ => f,
+        };
+        format!("{}:{}", rel, l.line())
+      })
       .unwrap_or_default();
     if let Ok(mut g) = LAST_LOC.lock() {
       *g = loc;
